@@ -863,8 +863,9 @@ func divFacts(a, b *Term, known func(*Term) bool) (q, r *Term, facts []*Term) {
 		// linear: SMT div/mod by a positive constant (euclidean == floor); fix up for negative a
 		return GoDiv(a, b), GoMod(a, b), nil
 	}
-	q = mkVar(fmt.Sprintf("quo!%d!%d", a.id, b.id), SInt)
-	r = mkVar(fmt.Sprintf("rem!%d!%d", a.id, b.id), SInt)
+	// uninterpreted functions of (a, b): equal operands give equal quotients by congruence
+	q = mkUF("go.quo", SInt, a, b)
+	r = mkUF("go.rem", SInt, a, b)
 	z := mkInt(0)
 	if known != nil && known(Gt(b, z)) {
 		facts = []*Term{
